@@ -16,7 +16,9 @@ Pilot descriptions name an absolute sandbox, so no shell is spawned for the
 `$HOME` expansion.
 
 What is replaced, per instance / per module: `register_input/output/subscriber`
-(no ZeroMQ), the publisher and the staging-input output (recorders), the module
+(no ZeroMQ; the input queue is a list which the REAL `work_cb` drains, so that an
+exception escaping `work()` fails the whole bulk exactly as in production), the
+publisher and the staging-input output (recorders), the module
 constants `backfilling._HWM/_BF_START_VAL/_BF_STOP_VAL` (scaled per rig; they are
 read from the environment at import time in production).
 
@@ -91,6 +93,16 @@ class _Pub(object):
         self.rig.published.append(msg)
 
 
+class _In(object):
+    '''stands for the scheduling queue getter'''
+    channel = 'tmgr_scheduling_queue'
+    def __init__(self):
+        self.bulk = []
+    def get_nowait(self, qname=None, timeout=None):
+        b, self.bulk = self.bulk, []
+        return b
+
+
 class _Out(object):
     channel = 'tmgr_staging_input_queue'
     def __init__(self, rig):
@@ -152,7 +164,18 @@ class TmgrRig(object):
         def _reg_out(states, qname=None):
             for st in ru.as_list(states):
                 c._outputs[st] = _Out(rig)
-        c.register_input      = lambda *a, **k: None
+        c._inputs, c._workers = dict(), dict()
+        c._cancel_list, c._cancel_lock = list(), ru.RLock()
+        self.inq = _In()
+
+        def _reg_in(states, queue, worker=None):
+            # as Component.register_input, minus the ZeroMQ getter
+            states = ru.as_list(states)
+            c._inputs['%s.%s' % (c._uid, worker.__name__)] = \
+                    {'queue': rig.inq, 'qname': None, 'states': states}
+            for st in states:
+                c._workers[st] = worker
+        c.register_input      = _reg_in
         c.register_output     = _reg_out
         c.register_subscriber = lambda *a, **k: None
         c.register_publisher  = lambda *a, **k: None
@@ -268,7 +291,9 @@ class TmgrRig(object):
         docs = [self.task_doc(u) for u in uids]
         for d in docs:
             self.submitted[d['uid']] = d
-        return self._call('Submit', lambda: self.c.work(docs), batch=uids)
+        # the bulk arrives on the input queue; the real work_cb routes it to work()
+        self.inq.bulk = docs
+        return self._call('Submit', lambda: self.c.work_cb(), batch=uids)
 
     def add(self, pairs):
         '''pairs: [pid, state of the pilot document], in message order.  The command
